@@ -13,6 +13,7 @@ import GontainerModel.Model.RuntimeConc
 import GontainerModel.Lemmas.ConcMulti
 import GontainerModel.Generated.Template
 import GontainerModel.Generated.Stub
+import GontainerModel.Generated.Library
 namespace GM.C20
 open GM GM.RuntimeConc
 
@@ -57,6 +58,69 @@ normal output the helper methods are methods on the container pointer (closures 
 theorem helpers_stateless :
     Generated.tplStructEmbedded = ["Container"] ∧ Generated.tplPackageVars = 0 ∧
     (Generated.tplFuncsNormal.filter (·.2.2)).length = 5 ∧ Generated.tplTypesNormal.length = 1 := by decide
+
+/-! ### the transition system is the library's `get` — tie to the source the repository's go.mod pins
+
+The statements of `(*Container).get` and `(*Container).getParam` are regenerated (flattened, in source order) from the module
+cache on every run. The theorems below say that the statements the transitions of `RuntimeConc.Step` stand for occur there, once
+each, in the order a thread passes them. -/
+
+/-- **`get`: lock → deferred unlock → cache look-up (return on hit) → deferred store (only without error) → construction.**
+`acquire` is `serviceLockers[id].Lock()`; `hit`/`miss` is the cache look-up right after it; the unlock is deferred BEFORE the
+store is deferred, and Go runs deferred calls last-in-first-out, so the store (`publish`) happens inside the critical section and
+the unlock after it; the store is guarded by `err == nil` (`fail` caches nothing); construction comes after all of these. Each of
+the lock, unlock and store statements occurs exactly once, and only in the branch for the shared and contextual scopes. -/
+theorem lib_get_protocol :
+    let l := Generated.libGet
+    let branch := l.idxOf "case scopeShared, scopeContextual:"
+    let lock := l.idxOf "c.serviceLockers[id].Lock()"
+    let unlock := l.idxOf "defer c.serviceLockers[id].Unlock()"
+    let look := l.idxOf "if s, cached := cache.get(id); cached {"
+    let store := l.idxOf "cache.set(id, result)"
+    let create := l.idxOf "result, err = c.createNewService(svc, contextualBag)"
+    branch < lock ∧ lock < unlock ∧ unlock < look ∧ look < store ∧ store < create ∧ create < l.length ∧
+    l[look + 1]? = some "return s, nil" ∧
+    l[store - 1]? = some "if err == nil {" ∧ l[store - 2]? = some "defer func() {" ∧
+    l.count "c.serviceLockers[id].Lock()" = 1 ∧ l.count "defer c.serviceLockers[id].Unlock()" = 1 ∧
+    l.count "cache.set(id, result)" = 1 ∧ l.count "result, err = c.createNewService(svc, contextualBag)" = 1 := by decide
+
+/-- the cache the protocol works on is the container-wide one for shared services and the caller's bag for contextual ones
+(`RuntimeConcMulti`: one cache per scope instance) -/
+theorem lib_get_caches :
+    let l := Generated.libGet
+    l[l.idxOf "case scopeShared:" + 1]? = some "cache = c.cacheSharedServices" ∧
+    l[l.idxOf "case scopeContextual:" + 1]? = some "cache = contextualBag" := by decide
+
+/-- **the stages of a construction, in the order of the runtime model's `getBody`**: constructor, fields, calls, decorators —
+each handing its result to the next, each failure ending the call -/
+theorem lib_get_stages :
+    let l := Generated.libGet
+    let create := l.idxOf "result, err = c.createNewService(svc, contextualBag)"
+    let fields := l.idxOf "result, err = c.setServiceFields(result, svc, contextualBag)"
+    let calls := l.idxOf "result, err = c.executeServiceCalls(result, svc, contextualBag)"
+    let deco := l.idxOf "result, err = c.decorateService(id, result, svc, contextualBag)"
+    create < fields ∧ fields < calls ∧ calls < deco ∧ deco < l.length ∧
+    l[create + 1]? = some "if err != nil {" ∧ l[fields + 1]? = some "if err != nil {" ∧
+    l[calls + 1]? = some "if err != nil {" ∧ l[deco + 1]? = some "if err != nil {" ∧
+    l[create + 2]? = some "return nil, err" ∧ l[fields + 2]? = some "return nil, err" ∧
+    l[calls + 2]? = some "return nil, err" ∧ l[deco + 2]? = some "return nil, err" := by decide
+
+/-- **`getParam`: the same protocol with one mutex per parameter** — lock, deferred unlock, cache look-up, evaluation, and the
+store only on the path where the evaluation returned no error -/
+theorem lib_getParam_protocol :
+    let l := Generated.libGetParam
+    let lock := l.idxOf "c.paramsLockers[id].Lock()"
+    let unlock := l.idxOf "defer c.paramsLockers[id].Unlock()"
+    let look := l.idxOf "if p, cached := c.cacheParams.get(id); cached {"
+    let eval := l.idxOf "result, err = c.resolveDep(nil, param)"
+    let store := l.idxOf "c.cacheParams.set(id, result)"
+    lock < unlock ∧ unlock < look ∧ look < eval ∧ eval < store ∧ store < l.length ∧
+    l[look + 1]? = some "return p, nil" ∧
+    l[eval + 1]? = some "if err != nil {" ∧ l[eval + 2]? = some "return nil, err" ∧ l[eval + 3]? = some "}" ∧ store = eval + 4 ∧
+    l.count "c.paramsLockers[id].Lock()" = 1 ∧ l.count "c.cacheParams.set(id, result)" = 1 := by decide
+
+/-- the library version these statements were read from is the one the repository requires -/
+theorem lib_version_pinned : Generated.libVersion = "v3.0.0-20231102220126-cd3ac9fbe738" := by decide
 
 /-! ### all services and all contexts at once -/
 
